@@ -926,6 +926,15 @@ func (s *Sched) killAll() {
 	}
 }
 
+// TimerDurations lists the durations of all timers created in this execution, in creation order.
+func (s *Sched) TimerDurations() []time.Duration {
+	var out []time.Duration
+	for _, tm := range s.timers {
+		out = append(out, tm.d)
+	}
+	return out
+}
+
 // Preemptions used so far.
 func (s *Sched) Preemptions() int { return s.preempt }
 
